@@ -118,6 +118,14 @@ func (p *Peer) Send(m msg.Message) error {
 	return msg.WriteMsg(p.rw, m)
 }
 
+// SendRaw writes bytes as they are on the (encrypted) control stream: frames no encoder would produce.
+func (p *Peer) SendRaw(b []byte) error {
+	p.wmu.Lock()
+	defer p.wmu.Unlock()
+	_, err := p.rw.Write(b)
+	return err
+}
+
 // Take removes and returns the first inbox message accepted by f, waiting up to d.
 func (p *Peer) Take(d time.Duration, f func(msg.Message) bool) (msg.Message, bool) {
 	deadline := time.Now().Add(d)
